@@ -408,6 +408,8 @@ def rot_mag(rng, many=False):
         return 0.0
     if r < 0.7:
         return gen.logu(rng, 1e-12, 1e-6)
+    if r < 0.75:       # below the quantifier's 1e-12: "every element", across the library's zero thresholds (10 and 100 eps)
+        return gen.logu(rng, 1e-18, 1e-12)
     return float(rng.uniform(0, PI))
 
 
